@@ -68,6 +68,7 @@ impl<'a> List<'a> {
     //@end
 }
 
+//@auto_helpers src/etag.rs rules=R22
 //@lits
 //@canary_false
 } // verus!
